@@ -34,6 +34,19 @@ class ClassLevelCache:
     pending: Set[Module] = field(default_factory=set)
 
 
+class TakenNames:
+    """The names in use in a Module, including those of the arrays, instance bundles and bundle instances which
+    elaboration has dissolved into their elements. Supports the `in` operator only."""
+
+    def __init__(self, module: Module):
+        self.module = module
+
+    def __contains__(self, name: str) -> bool:
+        if name in self.module.namespace:
+            return True
+        return name in (getattr(self.module, "_dissolved_names", None) or ())
+
+
 class ElabPass:
     """
     # Base ElabPass Class
@@ -224,6 +237,19 @@ class ElabPass:
                 break
             name += "_"  # Collision; append underscore
         return name
+
+    def dissolve(self, module: Module, name: str) -> None:
+        """Remove `name` - an array, instance bundle or bundle instance being replaced by its elements - from the
+        namespace of `module`, remembering that the designer used it: the names invented for elements and members
+        here and in later passes keep clear of it, like of any other name in the module (see `taken`)."""
+        module.namespace.pop(name)
+        if getattr(module, "_dissolved_names", None) is None:
+            module._dissolved_names = set()
+        module._dissolved_names.add(name)
+
+    def taken(self, module: Module) -> "TakenNames":
+        """The names which invented names in `module` must avoid: its namespace, plus the dissolved names."""
+        return TakenNames(module)
 
     def fail(self, msg: str):
         """Error helper, adding stack and state info to an error"""
